@@ -43,6 +43,60 @@ def is_cands(e):
     return match(e, Call("Iterator::collect", Call("IntoIterator::into_iter", Param(2), nargs=1), nargs=1))
 
 
+# --- head / tail of the candidate list ----------------------------------------------------------------------
+# The per-case filter treats the first candidate as the provisional best and compares every *other* candidate
+# with it.  Accepted spellings: `let (&head, tail) = candidates.split_first().ok_or(..)?`;
+# `candidates.first().ok_or(..)?` / `candidates[0]` with the others taken as `candidates.iter().skip(1)` /
+# `&candidates[1..]`; "no other candidate" is `tail.is_empty()` or `candidates.len() == 1 / < 2 / <= 1`.
+def _split(x):
+    return match(x, TryOk(Call("Option::ok_or", Call("[T]::split_first", is_cands, nargs=1))))
+
+
+def is_head_expr(x):
+    if x[0] == "field" and x[2] == 0 and _split(x[1]):
+        return True
+    if match(x, TryOk(Call("Option::ok_or", Call("[T]::first", is_cands, nargs=1)))):
+        return True
+    return x[0] == "index" and is_cands(x[1]) and x[2][0] == "const" and x[2][3] == 0
+
+
+def is_tail_expr(x):
+    if x[0] == "field" and x[2] == 1 and _split(x[1]):
+        return True
+    if callee_is(x, "Index::index") and is_cands(x[3][0]) and match(x[3][1], Agg("RangeFrom::RangeFrom", Const(1))):
+        return True
+    if callee_is(x, "Iterator::skip") and len(x[3]) == 2 and x[3][1][0] == "const" and x[3][1][3] == 1:
+        b = peel(x[3][0], (), casts=False)
+        return callee_is(b, "[T]::iter", "IntoIterator::into_iter") and is_cands(b[3][0])
+    return False
+
+
+def mentions_head(e):
+    return any(is_head_expr(x) for x in subexprs(e))
+
+
+def mentions_tail(e):
+    return any(is_tail_expr(x) for x in subexprs(e))
+
+
+def single_candidate_cond(c):
+    """truth value (True/False) with which the path condition `c` says "there is no candidate besides the head", or None"""
+    e, v = c[0], c[1]
+    truth = (v != 0) if not isinstance(v, tuple) else True
+    if callee_is(e, "[T]::is_empty") and is_tail_expr(peel(e[3][0], (), casts=False)):
+        return truth
+    if e[0] == "binop" and e[3][0] == "const":
+        a = peel(e[2], ())
+        is_len = (callee_is(a, "Vec::len", "[T]::len") and is_cands(a[3][0])) or (a[0] == "len" and is_cands(a[1]))
+        if is_len:
+            k = e[3][3]
+            if (e[1], k) in (("Eq", 1), ("Lt", 2), ("Le", 1)):
+                return truth
+            if (e[1], k) in (("Ne", 1), ("Ge", 2), ("Gt", 1)):
+                return not truth
+    return None
+
+
 def check(ctx):
     fn = ctx.fn(FN)
     paths = [p for p in ctx.paths(fn) if p.end != "unreachable"]
@@ -100,11 +154,9 @@ def check(ctx):
             ctx.check(good, "R08.2", "arm/%s/%s-result-at-current-case" % (name, side), short(e, 5)[:300], at,
                       bad_detail="%s operand of cmp is not results.get(<current case index>): %s" % (side, short(e, 7)[:500]))
         # operand roles: `this` comes from the inner iteration over `remaining`, `best` initially from the first candidate
-        inner_next = [x for x in subexprs(this) if callee_is(x, "Iterator::next") and
-                      any(callee_is(y, "[T]::split_first") for y in subexprs(x))]
+        inner_next = [x for x in subexprs(this) if callee_is(x, "Iterator::next") and mentions_tail(x)]
         ctx.check(bool(inner_next), "R08.2", "arm/%s/this-is-loop-candidate" % name, "first cmp operand derives from the iteration over the remaining candidates", at)
-        best_first = any(callee_is(y, "[T]::split_first") for y in subexprs(best)) and not any(
-            callee_is(x, "Iterator::next") and any(callee_is(y, "[T]::split_first") for y in subexprs(x)) for x in subexprs(best))
+        best_first = mentions_head(best) and not mentions_tail(best)
         ctx.check(best_first, "R08.2", "arm/%s/best-is-current-best" % name, "second cmp operand derives from the first candidate (current best)", at)
         # effects after the comparison
         ev = p.events
@@ -152,19 +204,14 @@ def check(ctx):
     seeded = False
     for p in paths:
         cs = p.calls()
-        sf = [c for c in cs if callee_is(c, "[T]::split_first")]
-        if not sf or not is_cands(sf[0][3][0]):
-            continue
         eff = [c for c in cs if callee_is(c, "Vec::clear", "Vec::push")]
         if len(eff) >= 2 and callee_is(eff[0], "Vec::clear") and callee_is(eff[1], "Vec::push"):
             first = eff[1][3][1]
-            if match(peel(first, ()), Field(Field(TryOk(Call("Option::ok_or", Call("[T]::split_first"))), 0), ANY)) or mentions(first, sf[0]):
-                fld = peel(first, ())
-                # must be the `.0` (head) component, not an element of the tail
-                head = fld[0] == "field" and fld[2] == 0
-                seeded = head
-                break
-    ctx.check(seeded, "R08.2", "winners-seeded-with-first-candidate", "per case: winners.clear(); winners.push(head of candidates.split_first())", at)
+            # must be the head itself, not an element of the tail
+            seeded = mentions_head(first) and not mentions_tail(first) and not any(callee_is(x, "Iterator::next") for x in subexprs(first))
+            break
+    ctx.check(seeded, "R08.2", "winners-seeded-with-first-candidate", "per case: winners.clear(); winners.push(first candidate)", at,
+              bad_detail="per case the winners must be reset to exactly the first candidate (winners.clear(); winners.push(head)) before the others are compared with it")
     swaps = [p for p in paths if p.end.startswith("loop:") and any(callee_is(c, "mem::swap") for c in p.calls())]
     ok = False
     for p in swaps:
@@ -176,15 +223,16 @@ def check(ctx):
     ctx.check(ok, "R08.2", "survivors-replace-candidates", "mem::swap(candidates, winners) is the last action of a case iteration", at)
 
     # ---- R08.3 loop exits ---------------------------------------------------
-    brk = [p for p in paths if any(callee_is(c[0], "[T]::is_empty") and c[1] != 0 for c in p.conds)]
-    cont = [p for p in paths if any(callee_is(c[0], "[T]::is_empty") and c[1] == 0 for c in p.conds)]
+    def single(p):
+        vs = [single_candidate_cond(c) for c in p.conds]
+        vs = [v for v in vs if v is not None]
+        return vs[0] if vs else None
+    brk = [p for p in paths if single(p) is True]
+    cont = [p for p in paths if single(p) is False]
     okb = bool(brk) and all(p.end == "return" and not any(callee_is(c, "Vec::push", "Vec::clear", "mem::swap") for c in p.calls()) for p in brk)
-    for p in brk:
-        ie = [c for c in p.conds if callee_is(c[0], "[T]::is_empty")][0][0]
-        okb = okb and match(ie[3][0], Through(Field(TryOk(Call("Option::ok_or", Call("[T]::split_first", is_cands))), 1)))
-    ctx.check(okb, "R08.3", "break-iff-remaining-empty", "%d break paths, all guarded by remaining.is_empty() and effect-free" % len(brk), at)
+    ctx.check(okb, "R08.3", "break-iff-remaining-empty", "%d break paths, all guarded by `no candidate besides the first` and effect-free" % len(brk), at)
     ctx.check(len(cont) >= 4, "R08.3", "filtering-continues-when-remaining-nonempty", "%d paths continue filtering with is_empty == false" % len(cont), at)
-    exh = [p for p in paths if p.end == "return" and not is_err_return(p) and not any(callee_is(c[0], "[T]::is_empty") for c in p.conds)]
+    exh = [p for p in paths if p.end == "return" and not is_err_return(p) and single(p) is None]
     ok_exh = bool(exh)
     for p in exh:
         nx = [c for c in p.conds if c[0][0] == "discr" and callee_is(c[0][1], "Iterator::next")]
@@ -200,8 +248,9 @@ def check(ctx):
     for i, p in enumerate(okr):
         cs = p.calls()
         sh = [c for c in cs if callee_is(c, "SliceRandom::shuffle") and is_cands(c[3][0])]
-        fi = [c for c in cs if callee_is(c, "[T]::first") and is_cands(c[3][0])]
-        ok = len(sh) == 1 and len(fi) == 1 and sh[0][3][1] == RNG and cs.index(sh[0]) < cs.index(fi[0])
+        # the first() whose value is returned (a first() inside the loop only names the provisional best)
+        fi = [c for c in cs if callee_is(c, "[T]::first") and is_cands(c[3][0]) and p.ret is not None and mentions(p.ret, c)][-1:]
+        ok = len(sh) == 1 and len(fi) == 1 and sh[0][3][1] == RNG and cs.index(sh[0]) < max(i for i, c in enumerate(cs) if c == fi[0])
         ret_ok = match(p.ret, Through(Call("Option::ok_or", Through(Bind("f", Call("[T]::first")), calls=("Option::copied",))), calls=("Result::map_err",))) and fi and mentions(p.ret, fi[0])
         ctx.check(ok and ret_ok, "R08.4", "final-shuffle-before-first/%d" % i, short(p.ret, 6), at,
                   bad_detail="non-error return is not first() of the survivors after shuffle(survivors, rng): shuffles=%d firsts=%d ret=%s" % (len(sh), len(fi), short(p.ret, 8)))
